@@ -1,10 +1,12 @@
 import NavisModel.Drv.C09
+import NavisModel.Drv.Forest
 /-! `navisdrv`: one request per line on stdin (`<prop>.<cmd> <payload>`), one answer per line on stdout. -/
 open Navis
 
 def handle (head rest : String) : Option String :=
   match head.splitOn "." with
   | ["c09", cmd] => Drv.C09.run cmd rest
+  | ["f", cmd] => Drv.Forest.run cmd rest
   | ["ping"] => some "pong"
   | _ => none
 
